@@ -37,6 +37,8 @@ import z3
 from symx import core
 from symx.core import Inconclusive, SBool, SInt, cur, fresh_bool, fresh_int, is_sym, zb, zi
 
+from props import alias_common as _alias
+
 ID = "C15"
 PINNED_TOTAL = 5_878_656  # stated in the property
 PINNED_POOLS = {"_CoordTokenizer": 9, "_AdjListTokenizer": 216, "_TargetTokenizer": 2, "_PathTokenizer": 1008}
@@ -883,6 +885,7 @@ def jobs(tier, seed):
                 out.append(dict(h="identity", root=root, seq=seq, idx=ch, label=f"identity:{root}:{seq}#{i // 60}"))
     # heavy jobs first
     out.sort(key=lambda j: 0 if j["h"] in ("enum_top", "xproc", "history") else 1)
+    out.append(dict(_alias.ALIAS_JOB))  # results must not alias library state, arguments or each other (props/alias_common.py)
     return out
 
 
@@ -898,6 +901,7 @@ HARNESSES = {
     "identity": dict(run=_run_identity, replay=_replay_identity, patch=_P),
     "history": dict(run=_run_history, replay=_replay_history, patch=_P, validate_every=0),
 }
+HARNESSES["alias"] = _alias.alias_harness("C15")
 
 META = dict(
     functions=["MazeTokenizerModular.is_legacy_equivalent", "from_legacy", "__eq__ (dataclass)", "is_valid (every _TokenizerElement subclass, mark_as_unsupported)",
@@ -921,3 +925,5 @@ META = dict(
     assumptions=["the parameter space is what the dataclass field type hints admit (bool, Literal, fixed tuples, unions, subclasses of abstract element classes)",
                  "validity rules are the is_valid methods of the elements; the total 5,878,656 and pool sizes 9/216/2/1008 are the ones the property states"],
 )
+
+META.setdefault("degenerate", {})["alias"] = _alias.ALIAS_META
